@@ -641,6 +641,10 @@ func (g *gen) genMore() {
 			g.add("cli.kestall", "nt", lib.V(lib.I(int64(mode)), lib.I(int64(cl))))
 		}
 	}
+	// the same over QUIC (mode 4: a QUIC handshake that never completes)
+	for _, mode := range []int{1, 2, 3, 4} {
+		g.add("cli.kestallquic", "nt", lib.I(int64(mode)))
+	}
 	// ---- SCION client with NTS ----
 	good8 := il(124, 124, 124, 124, 124, 124, 124, 124)
 	call := func(ke string, mode int, rl string, sp int, server []byte) string {
